@@ -146,6 +146,10 @@ fn halfway(x: f64, rng: &mut Rng) -> String {
                 b[i] = b'9';
             }
             s = String::from_utf8(b).unwrap();
+            // 1000..0 - 1 = 0999..9: a JSON number has no leading zero (the midpoint above 1e23 is exactly 10^23)
+            while s.len() > 1 && s.starts_with('0') {
+                s.remove(0);
+            }
             s.push('9');
             nudged = true;
         }
